@@ -45,7 +45,8 @@ def safe_flush(handle):
     status = True
     try:
         handle.flush()
-    except OSError:
+    except (OSError, ValueError):
+        # ValueError: the handle was closed (e.g. by the alias it was given to)
         status = False
     return status
 
@@ -546,9 +547,15 @@ class ProcProxyThread(threading.Thread):
                 source_msg="Exception in thread " + get_proc_proxy_name(self)
             )
             r = 1
-        safe_flush(sp_stdout)
-        safe_flush(sp_stderr)
-        self.returncode = parse_proxy_return(r, sp_stdout, sp_stderr)
+        try:
+            safe_flush(sp_stdout)
+            safe_flush(sp_stderr)
+            self.returncode = parse_proxy_return(r, sp_stdout, sp_stderr)
+        except Exception:
+            # What the alias returned cannot be delivered (it closed or broke
+            # its own streams).  The pipe ends must still be closed below, or
+            # whoever reads this proc's output waits for EOF forever.
+            self.returncode = r if isinstance(r, int) else 1
         try:
             if not last_in_pipeline:
                 # Close wrappers before closing raw fds to avoid
